@@ -110,7 +110,8 @@ func modelOf(games []bookGame) bookModel {
 
 func faultToken(g bookGame, p *rc.Pos, san bool) string {
 	if g.Fault == "unreadable" {
-		return "Zz9"
+		// a token no move can be read from; castling written with zeros is the one real files contain
+		return []string{"Zz9", "0-0", "0-0-0", "Zz9"}[(len(g.Moves)+g.FaultAt)%4]
 	}
 	// a move-shaped token that is not legal here
 	if san {
@@ -243,6 +244,14 @@ func numbered(toks []string, style int, pgn bool, decor int) string {
 				emit("{tricky; comment (with) [brackets] 1-0 and e4 Nf3}")
 			case 3:
 				emit("<reserved>")
+			case 2:
+				// comments whose text ends a physical line with a game-termination marker
+				if i%2 == 0 {
+					sb.WriteString(" {White could resign here 1-0\nbut plays on}")
+				} else {
+					sb.WriteString(" ; a draw was offered 1/2-1/2\n")
+				}
+				col = 0
 			}
 		}
 	}
